@@ -24,7 +24,20 @@ def _c01_units(prefix, prop, cq, ct):
                 quick=dict(cases=cq, shards=1, min_eval=500), thorough=dict(cases=ct, shards=2, min_eval=5000)))
     return us
 
+def _fz(name, src, cflags, rule, qruns=150000, truns=20000000):
+    return U(name, 'fuzz/' + src, flavour='fuzz', kind='libfuzzer', cflags=cflags, libs=['-lpugixml'], rule=rule,
+             quick=dict(runs=qruns, seconds=60, max_len=4096, min_eval=20000), thorough=dict(runs=truns, seconds=900, max_len=4096, min_eval=1000000))
+
+_FZ_LOAD_RULE = 'coverage-guided bytes: byte 0 selects one of 30 target types (class with 18 members and validators, containers, maps with string / int / float / timestamp / enum keys, tuples, arrays, byte containers, optionals, chrono, dynamic trees of 4 shapes, scalars), byte 1 policies x medium (memory, istringstream, short-read and non-seekable streambuf, chunk size); seeds = valid documents of every selector; non-trivial = the load returned normally or failed above the syntax level (mismatch, overflow, range, validation, UTF)'
 PROPERTIES = {
+ 'C02': dict(
+    level='exploration', exhaustive_claim=False,
+    rule='libFuzzer campaigns (ASan + UBSan, -malloc_limit_mb=512, -timeout=25 s per input, -max_len 4096) over 4 loader targets + converters + UTF codecs + encoded stream reader, plus a generated depth / size ladder in isolated children',
+    assumptions=TRUSTED + ['libFuzzer (clang 14) and its coverage feedback', 'memory oracle: a single allocation above 512 MiB or an RSS above 3 GiB for an input of at most 4 KiB is out of proportion', 'hang oracle: no result within 25 s (confirmed 3 times) for an input of at most 4 KiB'],
+    units=[_fz('fz_load_msgpack', 'fz_load.cpp', ['-DFZ_ARCH=0'], 'MessagePack: ' + _FZ_LOAD_RULE),
+           _fz('fz_load_json', 'fz_load.cpp', ['-DFZ_ARCH=1'], 'JSON: ' + _FZ_LOAD_RULE, qruns=100000),
+           _fz('fz_load_xml', 'fz_load.cpp', ['-DFZ_ARCH=2'], 'XML: ' + _FZ_LOAD_RULE, qruns=100000),
+           _fz('fz_load_csv', 'fz_load.cpp', ['-DFZ_ARCH=3'], 'CSV: bytes as a table for vector<typed row>, vector<map>, list; separators , and ;; all media', qruns=150000)]),
  'C03': dict(
     level='exploration', exhaustive_claim=False,
     rule='model-based: generated object documents (1..10 keys; ints, strings, bools, doubles, int arrays, nested objects; MsgPack also integer / float / timestamp keys) in an envelope [padding 0..600, object, sentinel]; generated request scripts (any order, repeats, absent keys with int / string / optional / atomic / unique_ptr targets, nested object with sub-script, array read for j <= n elements, VisitKeys, early stop) executed through the public Serialize(scope, key, value) API; 4 archives x memory / stringstream / short-read stream; oracle = the document as a map + the sentinel behind the object',
